@@ -20,11 +20,17 @@ TwoCounts ==
                DoR(A("cnt", <<Var("N")>>), <<<<"pos", A("e", <<X, Y>>)>>, <<"pos", A("f", <<Y>>)>>>>, <<>>, <<<<"N", "fn:count", <<>>>>>>) },
    edb |-> {A("e", <<N1, N2>>), A("e", <<N2, N3>>), A("e", <<N1, N3>>), A("f", <<N1>>), A("f", <<N3>>)}, limit |-> 0]
 
+\* an aggregating rule and a plain recursive rule for the same predicate (do-feedback family)
+RecAgg ==
+  [rules |-> { DoR(A("agg", <<X, Var("N")>>), <<<<"pos", A("e", <<X, Y>>)>>>>, <<"X">>, <<<<"N", "fn:count", <<>>>>>>),
+               R(A("agg", <<X, Var("N")>>), <<<<"pos", A("agg", <<Y, Var("N")>>)>>, <<"pos", A("e", <<Y, X>>)>>>>) },
+   edb |-> {A("e", <<N1, N2>>), A("e", <<N1, N3>>), A("e", <<N3, N1>>)}, limit |-> 0]
+
 E1Programs(k) ==
   LET SR == E1SafeRules(k) IN
   {[rules |-> rs, edb |-> e, limit |-> 0] :
       rs \in {x \in ({{r} : r \in SR} \cup {{r1, r2} : r1 \in SR, r2 \in SR}) : Stratifiable(x)},
       e \in E1Edbs}
 
-ProgramsSmall == E1Programs(1) \cup {LostJoin, TwoCounts}
+ProgramsSmall == E1Programs(1) \cup {LostJoin, TwoCounts, RecAgg}
 =============================================================================
